@@ -472,7 +472,7 @@ def rmw_only(chk, F):
                            "%s on Alloc.%s" % (op, f),
                            "operation %s on Alloc.%s is not in the allowed set %s (used must only be changed by "
                            "atomic read-modify-write)" % (name, f, sorted(allowed.get(f, []))))
-    chk.floor("rmw-only", 16, "(atomic operations on Alloc's counters)")
+    chk.floor("rmw-only", 17, "(atomic operations on Alloc's counters)")
 
 
 def accessors(chk, F):
@@ -503,9 +503,20 @@ def accessors(chk, F):
                "the peak (get_max() returned 0 with 1000 bytes live)")
     fn = F.find(CRATE, "Alloc::<A>::get_max")
     ps = sympath.enumerate_paths(fn)
-    ok = len(ps) == 1 and ps[0].ret[0] == "call" and ps[0].ret[1] == ATOMIC + "load" and field_of(ps[0].ret[2][0]) == "max"
-    chk.decide(ok, "peak-accessors", "Alloc::get_max", "load-max", fn.where(), "get_max returns max.load()",
+    def is_load(t, f):
+        return t[0] == "call" and t[1] == ATOMIC + "load" and field_of(t[2][0]) == f
+    r = ps[0].ret if len(ps) == 1 else ("none",)
+    plain = is_load(r, "max")
+    both = r[0] == "call" and r[1].endswith("cmp::Ord::max") and len(r[2]) == 2 and {("max" if is_load(x, "max") else "used" if is_load(x, "used") else None) for x in r[2]} == {"max", "used"}
+    chk.decide(plain or both, "peak-accessors", "Alloc::get_max", "load-max", fn.where(), "get_max reads max.load()",
                "get_max does not return max.load()")
+    # `never less than the largest usage reached since it was last reset`: reset_max stores a snapshot of `used` into `max`, which
+    # can overwrite what a racing allocation has just published (re-published a moment later).  In that window max < used; the peak
+    # that is reported must therefore be the larger of the two.
+    chk.decide(both, "peak-accessors", "Alloc::get_max", "never-below-current-usage", fn.where(),
+               "get_max returns max(max.load(), used.load()): never below what is allocated right now",
+               "get_max returns max.load() alone: while reset_max() is in flight on another thread it is below a live allocation "
+               "(get_max() = 0 with a 1000-byte block held, within a few hundred rounds)")
     # child.rs reports memory_used from get_max after the request and resets before it
     child = F.find(CRATE, "child::become_child", allow_many=True)
     calls = []
